@@ -10,6 +10,7 @@ CONSTANTS
   Horizon = 6
   MaxEx = 3
   ProbeNs <- NoProbes
+  ProbeUids <- GUidsX
   Exhaustive = TRUE
   Biases <- BiasOne
   TickPct = 0
